@@ -1249,4 +1249,280 @@ theorem earliest_le_clock (c : Cfg) {s : S} (h : Post s) {clk t : Int} {op : Op}
       omega
     · simp at hst
 
+/-! ### the whole refresh chain of an untouched record (75 %, then +10 % steps until expiry) -/
+
+/-- time of the last block of a history that starts at clock `clk` -/
+def lastTime : Int → List (Int × Op) → Int
+  | clk, [] => clk
+  | _, (t, _) :: es => lastTime t es
+
+theorem lastTime_append (clk : Int) (e1 : List (Int × Op)) (t : Int) (op : Op) (e2 : List (Int × Op)) :
+    lastTime clk (e1 ++ (t, op) :: e2) = lastTime t e2 := by
+  induction e1 generalizing clk with
+  | nil => rfl
+  | cons x xs ih => obtain ⟨t', op'⟩ := x; exact ih t'
+
+/-- `Chain … H outs n w`: the query scheduled for `w` is served by a send in `[w, w + minDelay]` asking `name`, and
+(unless the follow-up would not precede the expiry) so is the follow-up scheduled 10 % of the TTL after that send, and so on
+for `n` links — or the history (last block at `H`) has not yet gone beyond the deadline of the link in question. -/
+def Chain (c : Cfg) (name : String) (ttl : Nat) (expire : Int) (H : Int) (outs : List Send) : Nat → Int → Prop
+  | 0, _ => True
+  | n + 1, w =>
+    H ≤ w + c.minDelay ∨
+    ∃ o ∈ outs, w ≤ o.t ∧ o.t ≤ w + c.minDelay ∧ name ∈ o.types ∧
+      (expire ≤ o.t + 100 * ttl ∨ Chain c name ttl expire H outs n (o.t + 100 * ttl))
+
+theorem chain_mono_outs {c : Cfg} {name : String} {ttl : Nat} {expire H : Int} {o1 o2 : List Send} :
+    ∀ {n : Nat} {w : Int}, Chain c name ttl expire H o2 n w → Chain c name ttl expire H (o1 ++ o2) n w
+  | 0, _, _ => trivial
+  | n + 1, w, h => by
+    rcases h with h | ⟨o, ho, h1, h2, h3, h4⟩
+    · exact Or.inl h
+    · refine Or.inr ⟨o, List.mem_append.2 (Or.inr ho), h1, h2, h3, ?_⟩
+      rcases h4 with h4 | h4
+      · exact Or.inl h4
+      · exact Or.inr (chain_mono_outs h4)
+
+theorem chain_core (c : Cfg) (name : String) (ttl : Nat) (expire : Int) :
+    ∀ (evs : List (Int × Op)) (n : Nat) (s : S) (clk : Int) (s' : S) (outs : List Send) (q : Q),
+    Post s → q ∈ s.heap → q.cancelled = false → q.name = name → q.ttl = ttl → q.expire = expire →
+    s.earliest ≤ q.when + c.minDelay → clk ≤ q.when + c.minDelay →
+    (∀ e ∈ evs, e.2.active = true ∧ e.2.touches q.alias = false) →
+    exec c s clk evs = some (s', outs) →
+    Chain c name ttl expire (lastTime clk evs) outs n q.when := by
+  intro evs
+  induction evs with
+  | nil =>
+    intro n s clk s' outs q _ _ _ _ _ _ _ hclk _ _
+    cases n with
+    | zero => trivial
+    | succ n => exact Or.inl hclk
+  | cons e es ih =>
+    intro n s clk s' outs q h hq hl hname httl hexp he hclk hact hex
+    cases n with
+    | zero => trivial
+    | succ n =>
+    obtain ⟨t, op⟩ := e
+    obtain ⟨hen, s1, o1, o2, hst, hex2, rfl⟩ := exec_cons hex
+    have ⟨ha, hto⟩ := hact (t, op) (by simp)
+    have hp1 : Post s1 := post_step c h ha hst
+    have hen' := enabled_post h hen
+    have hbound := h.bound q hq hl
+    have htB : t ≤ q.when + c.minDelay := by omega
+    have hrest : ∀ e ∈ es, e.2.active = true ∧ e.2.touches q.alias = false := fun e he => hact e (List.mem_cons_of_mem _ he)
+    show Chain c name ttl expire (lastTime t es) (o1 ++ o2) (n + 1) q.when
+    have cont : q ∈ s1.heap → s1.earliest ≤ q.when + c.minDelay →
+        Chain c name ttl expire (lastTime t es) (o1 ++ o2) (n + 1) q.when := fun hq1 he1 =>
+      chain_mono_outs (ih (n + 1) s1 t s' o2 q hp1 hq1 hl hname httl hexp he1 htB hrest hex2)
+    cases op with
+    | start d => simp [Op.active] at ha
+    | stop => simp [Op.active] at ha
+    | ptr a n' ttl' cr =>
+      simp only [step, Option.some.injEq, Prod.mk.injEq] at hst
+      have hne : (q.alias == a) = false := beq_comm_false (by simpa [Op.touches] using hto)
+      refine cont ?_ ?_
+      · rw [← hst.1]; exact mem_reschedule_other c hq hne
+      · rw [← hst.1]; simpa using he
+    | cancel a =>
+      simp only [step, Option.some.injEq, Prod.mk.injEq] at hst
+      have hne : (q.alias == a) = false := beq_comm_false (by simpa [Op.touches] using hto)
+      refine cont ?_ ?_
+      · rw [← hst.1]; exact mem_cancelAlias_other hq hne
+      · rw [← hst.1]; exact he
+    | fire d =>
+      have hd : d = false := by simpa [Op.active] using ha
+      subst hd
+      rw [step_fire_post c h] at hst
+      split at hst
+      · simp only [Option.some.injEq] at hst
+        have hearl : s1.earliest = t + c.minDelay := by
+          have := fireReady_earliest c s t
+          rw [hst] at this; exact this
+        by_cases hw : q.when ≤ t
+        · obtain ⟨⟨o, ho, hot, hon⟩, hresc⟩ := fireReady_due c h.sorted hq hl hw
+          rw [hst] at ho hresc
+          refine Or.inr ⟨o, List.mem_append.2 (Or.inl ho), by omega, by omega, hname ▸ hon, ?_⟩
+          rw [hot]
+          rcases hresc with hstop | hmem
+          · exact Or.inl (by rw [← hexp, ← httl]; exact hstop)
+          · right
+            have hq' : ({ q with when := t + 100 * q.ttl } : Q) ∈ s1.heap := hmem
+            have := ih n s1 t s' o2 { q with when := t + 100 * q.ttl } hp1 hq' hl hname httl hexp
+              (by show s1.earliest ≤ t + 100 * ↑q.ttl + ↑c.minDelay; omega)
+              (by show t ≤ t + 100 * ↑q.ttl + ↑c.minDelay; omega) hrest hex2
+            have hwhen : ({ q with when := t + 100 * q.ttl } : Q).when = t + 100 * ttl := by rw [← httl]
+            rw [hwhen] at this
+            exact chain_mono_outs this
+        · have hk : q ∈ s1.heap := by
+            have := fireReady_keeps c h.sorted hq hl (now := t) (by omega)
+            rw [hst] at this; exact this
+          exact cont hk (by omega)
+      · simp at hst
+
+/-! ### reaching the running phase; splitting a history -/
+
+theorem exec_cons_intro {c : Cfg} {s s1 s' : S} {clk t : Int} {op : Op} {es : List (Int × Op)} {o1 o2 : List Send}
+    (hen : enabledAt s clk t = true) (hst : step c s t op = some (s1, o1)) (hex : exec c s1 t es = some (s', o2)) :
+    exec c s clk ((t, op) :: es) = some (s', o1 ++ o2) := by
+  simp [exec, hen, hst, hex]
+
+theorem exec_append (c : Cfg) : ∀ (e1 : List (Int × Op)) (s : S) (clk : Int) (e2 : List (Int × Op)) (s' : S) (outs : List Send),
+    exec c s clk (e1 ++ e2) = some (s', outs) →
+    ∃ s1 o1 o2, exec c s clk e1 = some (s1, o1) ∧ exec c s1 (lastTime clk e1) e2 = some (s', o2) ∧ outs = o1 ++ o2 := by
+  intro e1
+  induction e1 with
+  | nil => intro s clk e2 s' outs h; exact ⟨s, [], outs, rfl, h, rfl⟩
+  | cons e es ih =>
+    intro s clk e2 s' outs h
+    obtain ⟨t, op⟩ := e
+    obtain ⟨hen, s1, o1, o2, hst, hex2, rfl⟩ := exec_cons h
+    obtain ⟨s2, p1, p2, h1, h2, rfl⟩ := ih s1 t e2 s' o2 hex2
+    exact ⟨s2, o1 ++ p1, p2, exec_cons_intro hen hst h1, h2, by simp⟩
+
+/-- one active block from a start-up state: still start-up, or the running phase begins with the rate-limit horizon one
+delay after now -/
+theorem pre_step (c : Cfg) (t1 : Int) {s : S} (h : Pre t1 s) {t : Int} {op : Op} {s1 : S} {o1 : List Send}
+    (ha : op.active = true) (hst : step c s t op = some (s1, o1)) :
+    Pre t1 s1 ∨ (Post s1 ∧ s1.earliest ≤ t + c.minDelay) := by
+  cases op with
+  | start d => simp [Op.active] at ha
+  | stop => simp [Op.active] at ha
+  | ptr a n ttl cr =>
+    simp only [step, Option.some.injEq, Prod.mk.injEq] at hst
+    rw [← hst.1]; exact Or.inl (pre_reschedule c h a n ttl cr)
+  | cancel a =>
+    simp only [step, Option.some.injEq, Prod.mk.injEq] at hst
+    rw [← hst.1]; exact Or.inl ⟨h.sent, h.started, h.armed, sorted_cancelAlias _ h.sorted⟩
+  | fire d =>
+    have hd : d = false := by simpa [Op.active] using ha
+    subst hd
+    have hk := h.sent
+    simp only [step, h.armed] at hst
+    split at hst
+    · rename_i hdue
+      simp only [Option.some.injEq] at hst
+      rw [fireStartup_false] at hst
+      by_cases h4 : 4 ≤ s.startupSent + 1
+      · right
+        simp only [h4, if_true, Prod.mk.injEq] at hst
+        rw [← hst.1]
+        refine ⟨⟨by simp [armReady]; omega, rfl, rfl, by simp [armReady], h.sorted, ?_⟩, by simp [armReady]⟩
+        intro x _ _
+        show t + ↑c.minDelay ≤ max x.when (t + ↑c.minDelay)
+        omega
+      · left
+        simp only [h4, if_false, Prod.mk.injEq] at hst
+        rw [← hst.1]
+        refine ⟨by simp; omega, h.started, ?_, h.sorted⟩
+        simp only
+        rw [← hdue, Int.add_assoc, startupOffset_succ (by omega)]
+    · simp at hst
+
+/-- after any active history from a start-up state: still start-up, or running with the horizon at most one delay
+after the last block -/
+theorem inv_exec (c : Cfg) (t1 : Int) : ∀ (evs : List (Int × Op)) (s : S) (clk : Int) (s' : S) (outs : List Send),
+    (Pre t1 s ∨ (Post s ∧ s.earliest ≤ clk + c.minDelay)) → (∀ e ∈ evs, e.2.active = true) →
+    exec c s clk evs = some (s', outs) →
+    Pre t1 s' ∨ (Post s' ∧ s'.earliest ≤ lastTime clk evs + c.minDelay) := by
+  intro evs
+  induction evs with
+  | nil =>
+    intro s clk s' outs h _ hex
+    simp only [exec, Option.some.injEq, Prod.mk.injEq] at hex
+    rw [← hex.1]; exact h
+  | cons e es ih =>
+    intro s clk s' outs h hact hex
+    obtain ⟨t, op⟩ := e
+    obtain ⟨hen, s1, o1, o2, hst, hex2, rfl⟩ := exec_cons hex
+    have ha : op.active = true := hact (t, op) (by simp)
+    have hrest : ∀ e ∈ es, e.2.active = true := fun e he => hact e (List.mem_cons_of_mem _ he)
+    refine ih s1 t s' o2 ?_ hrest hex2
+    rcases h with h | ⟨h, hc⟩
+    · exact pre_step c t1 h ha hst
+    · exact Or.inr ⟨post_step c h ha hst, earliest_le_clock c h hc hen ha hst⟩
+
+/-! ### an instance never mentioned has no entry -/
+
+theorem current_none_of_cnt_zero {a : String} {h : List Q} (hc : cnt a h = 0) : current a h = none := by
+  unfold current
+  rw [List.find?_eq_none]
+  intro x hx hp
+  have := cnt_pos_of_mem hx (show isEntry a x = true from hp)
+  omega
+
+theorem cnt_fireReady_le (c : Cfg) (s : S) (now : Int) (b : String) : cnt b (fireReady c s now false).1.heap ≤ cnt b s.heap := by
+  rw [fireReady_heap]
+  unfold cnt
+  rw [filter_insertAll_length]
+  have h1 := cnt_rescues_le b now (popReady now s.heap).1
+  have h2 := popReady_count now (fun q => q.alias == b) s.heap
+  unfold cnt at h1
+  have e : (fun q : Q => !q.cancelled && q.alias == b) = isEntry b := rfl
+  rw [e] at h2
+  omega
+
+theorem noentry_step (c : Cfg) {s : S} {a : String} (h0 : cnt a s.heap = 0) {t : Int} {op : Op} {s1 : S} {o1 : List Send}
+    (ha : op.active = true) (hto : op.touches a = false) (hst : step c s t op = some (s1, o1)) : cnt a s1.heap = 0 := by
+  cases op with
+  | start d => simp [Op.active] at ha
+  | stop => simp [Op.active] at ha
+  | ptr a' n ttl cr =>
+    simp only [step, Option.some.injEq, Prod.mk.injEq] at hst
+    have hne : (a' == a) = false := by simpa [Op.touches] using hto
+    rw [← hst.1]
+    unfold reschedule
+    split
+    · split
+      · show cnt a (relife _ _ _ _) = 0
+        rw [cnt_relife]; exact h0
+      · simp only [schedule_heap]
+        rw [cnt_insert, isEntry_firstQuery, hne]
+        have := cnt_cancel_le a' a s.heap
+        simp; omega
+    · simp only [schedule_heap]
+      rw [cnt_insert, isEntry_firstQuery, hne]
+      simp; exact h0
+  | cancel a' =>
+    simp only [step, Option.some.injEq, Prod.mk.injEq] at hst
+    rw [← hst.1]
+    have := cnt_cancel_le a' a s.heap
+    show cnt a (cancelAlias a' s.heap) = 0
+    omega
+  | fire d =>
+    have hd : d = false := by simpa [Op.active] using ha
+    subst hd
+    simp only [step] at hst
+    split at hst
+    · split at hst
+      · simp only [Option.some.injEq] at hst
+        have := fireStartup_heap c s t false
+        rw [hst] at this
+        have e : s1.heap = s.heap := this
+        rw [e]; exact h0
+      · simp at hst
+    · split at hst
+      · simp only [Option.some.injEq] at hst
+        have := cnt_fireReady_le c s t a
+        rw [hst] at this
+        have e : cnt a s1.heap ≤ cnt a s.heap := this
+        omega
+      · simp at hst
+    · simp at hst
+
+theorem noentry_exec (c : Cfg) (a : String) : ∀ (evs : List (Int × Op)) (s : S) (clk : Int) (s' : S) (outs : List Send),
+    cnt a s.heap = 0 → (∀ e ∈ evs, e.2.active = true ∧ e.2.touches a = false) → exec c s clk evs = some (s', outs) →
+    cnt a s'.heap = 0 := by
+  intro evs
+  induction evs with
+  | nil =>
+    intro s clk s' outs h0 _ hex
+    simp only [exec, Option.some.injEq, Prod.mk.injEq] at hex
+    rw [← hex.1]; exact h0
+  | cons e es ih =>
+    intro s clk s' outs h0 hact hex
+    obtain ⟨t, op⟩ := e
+    obtain ⟨_, s1, o1, o2, hst, hex2, _⟩ := exec_cons hex
+    have ⟨ha, hto⟩ := hact (t, op) (by simp)
+    exact ih s1 t s' o2 (noentry_step c h0 ha hto hst) (fun e he => hact e (List.mem_cons_of_mem _ he)) hex2
+
 end Zc.Sched
